@@ -23,7 +23,7 @@ MANIFEST = {
 
 RULE = ("overload sets of 2..5 candidates (arity 0..3 over 22 types: int,string,float64,bool,[]int,[]string,func types,map,*int and 12 named "
         "types), 78% pairwise distinguishable (decidable predicate shared with the Lean theorem, cross-checked against go/types), styles "
-        "lit/named/mixed/method/binary-operator/class-file (K.gox), names with and without '_'; every set is declared once per permutation of its listing order "
+        "lit/named/mixed/method/binary-operator/class-file; independent random shapes of the overloaded name and of the receiver name (no/inner/leading '_', mixed case), overload declarations before or after the type and candidates, in the same file or in files sorting before/after (plus 36 coverage sets enumerating these); every set is declared once per permutation of its listing order "
         "(n! declarations) and called with the exact parameter types of each candidate plus assignable variants; + rejected declarations "
         "(invalid method/func/recv, 36 vs 37 entries), calls no candidate accepts, and random gogen scopes/constants (const and no-const path, "
         "missing names, holes, bad digits, 35..38 slots); non-trivial = distinct case line")
